@@ -573,6 +573,9 @@ def _c16b_check(reg, case):
     pts, losses = _history(rnd, space, max(case["n_hist"], case["bs"]), case["loss_kind"])
     s = BestBatchSampler(case["bs"], random_state=case["seed"], perturbation_range=case["range"],
                          max_deduplication_passes=0)
+    # the same sampler object first sees ANOTHER history of the same length (state kept between calls must not matter)
+    pts0, losses0 = _history(rnd, space, len(pts), "plain")
+    s.sample(space, pts0, losses0)
     out = s.sample(space, pts, losses)
     order = np.argsort(losses, kind="stable")
     kth = np.sort(losses)[case["bs"] - 1]
